@@ -844,6 +844,13 @@ def scenarios(prop, count, seed):
         if rng.random() < {"C04": 0.12, "C14": 0.12, "C11": 0.1, "C05": 0.08, "C08": 0.08}.get(prop, 0.05):
             sc["cfg"]["cout"] = ["exc" if sc["cfg"]["kind"][j] == "job" and rng.random() < 0.5 else "cancelled"
                                  for j in range(n)]
+        # now and then a body that nobody requires ends in CancelledError on its own
+        if rng.random() < {"C11": 0.1, "C14": 0.1, "C02": 0.08, "C09": 0.08}.get(prop, 0.04):
+            required = {r for rq in sc["cfg"]["req"] for r in rq}
+            for j in range(n):
+                if sc["cfg"]["kind"][j] == "job" and (j + 1) not in required and sc["cfg"]["dur"][j] >= 0 \
+                        and rng.random() < 0.5:
+                    sc["cfg"]["out"][j] = "selfc"
         # now and then shutdown() has been called on the tree before the run
         if rng.random() < {"C04": 0.08, "C13": 0.08, "C08": 0.05, "C11": 0.05}.get(prop, 0.02):
             sc["cfg"]["preshut"] = True
@@ -851,6 +858,10 @@ def scenarios(prop, count, seed):
             hrn["verbose"] = True
         if hrn.get("verbose") == "keep":
             hrn["verbose"] = True
+        if hrn.get("verbose") is True and rng.random() < 0.4:
+            hrn["verbose"] = "mixed"            # some schedulers of the tree are verbose, some are not
+        hrn["addstyle"] = rng.choice(["ctor", "ctor", "add", "update"])
+        hrn["nolabel"] = rng.random() < 0.25
         if rng.random() < stall_p:
             hrn["stall"] = [rng.choice([0, 0, 1, 2, 3]) if sc["cfg"]["kind"][j] == "job" else 0
                             for j in range(n)]
